@@ -46,15 +46,22 @@ def codeToGt (c : String) : GtRes :=
 /-- records; for CLI cases GT strings go through the model's GT grammar (unparsable = corrupt record) -/
 def decodeRecords (s : String) (viaCli : Bool) : Option (List Rec) :=
   if s == "-" || s == "" then some [] else
-  (s.splitOn ";").mapM (fun r => match r.splitOn "~" with
-    | [c, p, g] => do
+  -- `prev`: the position the reader's record buffer holds when a line is parsed (1 at first, then the previous record's POS); a record
+  -- whose POS column itself is unreadable (`!badpos`, `!bigpos`) is reported with it
+  let step (acc : Option (List Rec × Nat)) (r : String) : Option (List Rec × Nat) := do
+    let (done, prev) ← acc
+    match r.splitOn "~" with
+    | [c, p, g] =>
       let pos ← p.toNat?
-      if g.startsWith "!" then pure (Rec.corrupt c pos)
-      else if !viaCli then pure (Rec.gts c pos ((g.splitOn ",").map codeToGt))
+      if g.startsWith "!" then
+        let site := if viaCli && (g == "!badpos" || g == "!bigpos") then prev else pos
+        pure (done ++ [Rec.corrupt c site], prev)
+      else if !viaCli then pure (done ++ [Rec.gts c pos ((g.splitOn ",").map codeToGt)], pos)
       else match (g.splitOn ",").mapM (fun gt => if gt == "@" then some (GtRes.skipped .missing) else (parseGT gt.toList).map classifyField) with
-        | some l => pure (Rec.gts c pos l)
-        | none => pure (Rec.corrupt c pos)
-    | _ => none)
+        | some l => pure (done ++ [Rec.gts c pos l], pos)
+        | none => pure (done ++ [Rec.corrupt c pos], pos)
+    | _ => none
+  ((s.splitOn ";").foldl step (some ([], 1))).map (·.1)
 
 def buildErrTag : BuildErr → String
   | .emptySamplesMap => "empty"
@@ -188,7 +195,7 @@ def cliVerdict (container : String) (cols : List String) (recs : List Rec) (ss p
         | none, some (.genotypeError c pp) =>
           errkind == "genotype" &&
             (match cfg? with
-             | some cfg => firstBadIsCorrupt cfg args.strict recs || errsite == s!"{c}:{pp}"
+             | some _ => errsite == s!"{c}:{pp}"
              | none => false)
         | none, some (.strict c pp) => errkind == "strict" && errsite == s!"{c}:{pp}"
         | none, none => false
@@ -196,7 +203,7 @@ def cliVerdict (container : String) (cols : List String) (recs : List Rec) (ss p
       -- properties ask of it); an unrecognised build error cannot be compared
       let siteOnlyOk := errkind == "site?" && (match o.buildErr, o.err with
         | none, some (.genotypeError c pp) => (match cfg? with
-            | some cfg => firstBadIsCorrupt cfg args.strict recs || errsite == s!"{c}:{pp}"
+            | some _ => errsite == s!"{c}:{pp}"
             | none => false)
         | none, some (.strict c pp) => errsite == s!"{c}:{pp}"
         | _, _ => false)
@@ -211,6 +218,12 @@ def handleCli (a : List String) (impl : String) (p : String) : Option Verdict :=
   match a with
   | [container, _transport, _threads, _layout, _extras, cs, ss, ps, st, pr, rs] => do
     let recs ← decodeRecords rs true
+    if ss.startsWith "L:" then
+      -- a samples file that is not valid UTF-8 cannot be read (`read_to_string`): the run fails whatever the rest says, nothing on stdout
+      let fields := impl.splitOn "|"
+      if fields.headD "?" == "ERR" && lookupField fields "out" == "-" then pure (.ok s!"{p}-cli-{container}-err-samples-file-unreadable")
+      else pure (.bad "ERR|out=-|… (the samples file is not valid UTF-8: no sample list can be taken from it)")
+    else
     cliVerdict container (splitCsv cs) recs ss ps st pr impl p
   | _ => none
 
